@@ -346,6 +346,7 @@ func (x *Exec) store(st *State, p *Ptr, v *Val) {
 			key := "H|" + typeKey(p.Root) + "|" + prefix + l.Path
 			ci := x.hInfo(l)
 			h := x.heapSym(st, key, ci)
+			x.freshCheck(st, key, p.Ref, x.curPos)
 			x.setHeap(st, key, ci, sto(x.use(h), p.Ref, ts[i]))
 		}
 	case PElem:
@@ -358,6 +359,7 @@ func (x *Exec) store(st *State, p *Ptr, v *Val) {
 			ci := x.eInfo(l)
 			h := x.heapSym(st, key, ci)
 			a := x.use(h)
+			x.freshCheck(st, key, p.Ref, x.curPos)
 			x.setHeap(st, key, ci, sto(a, p.Ref, sto(sel(a, p.Ref), p.Idx, ts[i])))
 		}
 	}
